@@ -41,9 +41,14 @@ func (e *Engine) argInt(v Value, what string) int {
 	return int(t.ConstS())
 }
 
-func (e *Engine) uniqueName(name string) string {
-	n := e.h.nameCount[name]
-	e.h.nameCount[name] = n + 1
+func (e *Engine) uniqueName(st *State, name string) string {
+	n := st.names[name]
+	nn := make(map[string]int, len(st.names)+1)
+	for k, v := range st.names {
+		nn[k] = v
+	}
+	nn[name] = n + 1
+	st.names = nn
 	if n == 0 {
 		return name
 	}
@@ -51,7 +56,7 @@ func (e *Engine) uniqueName(name string) string {
 }
 
 func (e *Engine) symBytes(st *State, name string, lo, hi, spare int) SliceV {
-	name = e.uniqueName(name)
+	name = e.uniqueName(st, name)
 	cells := make([]Value, hi+spare)
 	for i := range cells {
 		cells[i] = e.ts.Var(fmt.Sprintf("%s[%d]", name, i), 8)
@@ -63,7 +68,7 @@ func (e *Engine) symBytes(st *State, name string, lo, hi, spare int) SliceV {
 	} else {
 		ln = e.ts.VarRange(name+".len", 64, uint64(lo), uint64(hi))
 	}
-	e.h.inputs = append(e.h.inputs, InputDecl{Name: name, Kind: "bytes", Lo: lo, Hi: hi + spare})
+	e.h.addInput(InputDecl{Name: name, Kind: "bytes", Lo: lo, Hi: hi + spare})
 	bt := types.Typ[types.Uint8]
 	return SliceV{obj: o, off: e.c64(0), len: ln, cap: e.ts.Add(ln, e.c64(int64(spare))), elem: bt}
 }
@@ -78,8 +83,8 @@ func init() {
 	}
 	scalar := func(w int, kind string) intrinsicFn {
 		return func(e *Engine, st *State, a []Value, in ssa.Instruction) Value {
-			name := e.uniqueName(e.argString(st, a[0], kind))
-			e.h.inputs = append(e.h.inputs, InputDecl{Name: name, Kind: kind, W: w})
+			name := e.uniqueName(st, e.argString(st, a[0], kind))
+			e.h.addInput(InputDecl{Name: name, Kind: kind, W: w})
 			return e.ts.Var(name, w)
 		}
 	}
@@ -89,24 +94,24 @@ func init() {
 	h["vU64"] = scalar(64, "u64")
 	h["vBool"] = scalar(0, "bool")
 	h["vInt"] = func(e *Engine, st *State, a []Value, in ssa.Instruction) Value {
-		name := e.uniqueName(e.argString(st, a[0], "vInt"))
+		name := e.uniqueName(st, e.argString(st, a[0], "vInt"))
 		lo, hi := e.argInt(a[1], "lo"), e.argInt(a[2], "hi")
 		if lo < 0 || hi < lo {
 			panic(encErr("vInt: need 0 <= lo <= hi"))
 		}
-		e.h.inputs = append(e.h.inputs, InputDecl{Name: name, Kind: "int", W: 64, Lo: lo, Hi: hi})
+		e.h.addInput(InputDecl{Name: name, Kind: "int", W: 64, Lo: lo, Hi: hi})
 		if lo == hi {
 			return e.c64(int64(lo))
 		}
 		return e.ts.VarRange(name, 64, uint64(lo), uint64(hi))
 	}
 	h["vChoice"] = func(e *Engine, st *State, a []Value, in ssa.Instruction) Value {
-		name := e.uniqueName(e.argString(st, a[0], "vChoice"))
+		name := e.uniqueName(st, e.argString(st, a[0], "vChoice"))
 		n := e.argInt(a[1], "vChoice n")
 		if n <= 0 {
 			panic(encErr("vChoice: n must be positive"))
 		}
-		e.h.inputs = append(e.h.inputs, InputDecl{Name: name, Kind: "int", W: 64, Lo: 0, Hi: n - 1})
+		e.h.addInput(InputDecl{Name: name, Kind: "int", W: 64, Lo: 0, Hi: n - 1})
 		if n == 1 {
 			return e.c64(0)
 		}
